@@ -488,6 +488,18 @@ Theorem C17_resume_before_first_update : forall (c : @config R) (p : @params R) 
 Proof. exact resume_before_first_update. Qed.
 Print Assumptions C17_resume_before_first_update.
 
+(* the state of the extended coordinate is (x_ext, v_ext) and nothing else: continuing from any live state with ANY parameters c, p (the engine
+   changed its time step in mid-session; or the state is loaded by a job with other fluctuation / time constant / friction) equals a fresh
+   object started from the integrated values with those parameters *)
+Theorem C17_continue_with_other_parameters : forall (c : @config R) (p : @params R) (s : @state R) (t : Z) xe (i : @input R) (l : list (@input R)),
+  s_x_ext s = Some xe -> s_after_restart s = false -> (0 <= t)%Z -> (0 <= s_prev_ts s < i_step i)%Z -> (t < i_step i)%Z ->
+  i_running i = true -> tsf_error c s i = false ->
+  List.Forall (fun j => i_running j = true /\ (i_step i < i_step j)%Z) l ->
+  trace Rops c p (restart_state Rops xe (s_v_ext s)) (map (shift_input t) (i :: l))
+  = map (shift_state t) (trace Rops c p s (i :: l)).
+Proof. exact continue_with_parameters. Qed.
+Print Assumptions C17_continue_with_other_parameters.
+
 (* ---- the premises are satisfiable ------------------------------------------------------------------------------- *)
 Definition ex_c : @config R := mkConfig 1 1 1 16 0 (1 / 2) 2%Z 0 1 false false 1 None false false.     (* factor 2, no boundary *)
 Definition ex_cr : @config R := mkConfig 1 1 1 16 0 1 1%Z 0 1 true true 1 None false false.      (* both boundaries reflecting *)
